@@ -7,7 +7,7 @@ SPEC = {'level': 'exploration',
                  'indexed hash (ReadBlock does not re-check the merkle root; the connect clause is checked separately); ReadRawBlock is only required to fail on '
                  'magic / oversize length',
                  'connect clause: one flipped byte anywhere in the transaction region of a never-connected fork block EXCEPT the coinbase witness item (not covered by the '
-                 'txid merkle root nor re-checked at connect time, see SENSITIVITY.md / final report); the fork is then given the most work'],
+                 'txid merkle root nor re-checked at connect time: known finding c17.corrupt-cbwitness-connected, replayed by stage c17_probe_cbwitness from the corpus; draws landing in that region are counted in class cbwitness-region-excluded); the fork is then given the most work'],
  'stages': [{'kind': 'gen',
              'binary': 'vh_c17',
              'target': 'c17_blockstore',
@@ -16,7 +16,10 @@ SPEC = {'level': 'exploration',
              'min_cases_quick': 200,
              'floors': {'multi-file': 0.3, 'reorg': 0.15, 'fault-magic': 0.08, 'fault-length': 0.08, 'fault-header': 0.08, 'fault-tx': 0.08,
                         'fault-undo-body': 0.05, 'fault-undo-checksum': 0.05, 'fault-truncate': 0.05, 'corrupt-fork-not-connected': 0.05},
-             'rule': 'block/undo write histories + raw-file faults; non-trivial = records in >=2 block files + undo written after a reorg + >=2 fault regions hit'}]}
+             'rule': 'block/undo write histories + raw-file faults; non-trivial = records in >=2 block files + undo written after a reorg + >=2 fault regions hit'},
+            # regression-only stage (no generated cases): replays corpus/C17/c17_probe_cbwitness/* = the known finding c17.corrupt-cbwitness-connected
+            gen('vh_c17', 'c17_probe_cbwitness', 0, 0, tiers=(),
+                rule='probe of the coinbase-witness region that c17_blockstore excludes by construction (known finding; replayed from the corpus only)')]}
 
 META = {'level_text': 'Generated block histories (250 B..70 KiB blocks, forks and reorgs so that undo data is written out of order, 64 KiB block files) on an '
                'in-process regtest node with on-disk block storage; after every step every block and undo record is read back through ReadBlock / ReadRawBlock / '
